@@ -171,7 +171,45 @@ def native(seed=0):
     return bad, n
 
 
+def native_polyak():
+    """real TDGLSolver.get_induced_vector_potential on a real device: earlier iterates (the caller's arrays) must not change"""
+    import logging
+    import numpy as np
+    logging.disable(logging.CRITICAL)
+    import tdgl
+    from tdgl.solver.solver import TDGLSolver
+    from checks import update_native
+    dev = update_native.device()
+    s = TDGLSolver(dev, tdgl.SolverOptions(solve_time=1, include_screening=True), applied_vector_potential=0.2)
+    rng = np.random.default_rng(0)
+    bad = []
+    n = 0
+    for trial in range(5):
+        A0 = rng.normal(size=(s.num_edges, 2)) * 1e-3
+        v0 = rng.normal(size=(s.num_edges, 2)) * 1e-4
+        J = rng.normal(size=s.num_edges)
+        A_vals, vel = [A0], [v0]
+        keepA, keepv = A0.copy(), v0.copy()
+        for it in range(3):
+            prevA, prevA_copy = A_vals[-1], A_vals[-1].copy()
+            s.get_induced_vector_potential(J, A_vals, vel)
+            n += 1
+            if not np.array_equal(prevA, prevA_copy):
+                bad.append(dict(what="get_induced_vector_potential changed the previous iterate it was given (the caller's array)", trial=trial, iteration=it,
+                                max_abs_change=float(np.abs(prevA - prevA_copy).max())))
+                break
+        if not (np.array_equal(A0, keepA) and np.array_equal(v0, keepv)) and not bad:
+            bad.append(dict(what="get_induced_vector_potential changed the initial induced potential / velocity arrays", trial=trial))
+    logging.disable(logging.NOTSET)
+    return bad, n
+
+
 def replay(unit, obl):
+    if unit == "get_induced_vector_potential":
+        import tdgl
+        bad, n = native_polyak()
+        if bad:
+            return dict(confirmed=True, failing_input=bad[0], n_failing=len(bad), evaluations=n, tdgl_file=tdgl.__file__)
     if unit.startswith("_run_stage"):
         from checks import runner_native
         return runner_native.replay(unit, obl)
